@@ -64,6 +64,13 @@ def cmd_check(args, vx):
         except OSError:
             return False
     jobs = [(u, False) for u in units] + [(u, True) for u in units] + [(u, "findings") for u in units if has_findings(u)]
+    # dispatcher units s2.. are generated from the samples' declarations: the committed text must be what the generator gives
+    gen_samples = [u[len("generated_"):] for u in units if u.startswith("generated_") and u != "generated_s1"]
+    gen_stale = None
+    if gen_samples:
+        gp = subprocess.run([sys.executable, os.path.join(vx.VERIF, "tools", "gen_dispatch_unit.py"), "--check"] + gen_samples, capture_output=True, text=True)
+        if gp.returncode != 0:
+            gen_stale = "generated dispatcher unit out of date (run tools/gen_dispatch_unit.py): " + gp.stdout.strip()[:300]
     results = {}
     early_tool_problems = []
     with concurrent.futures.ThreadPoolExecutor(max_workers=8) as ex:
@@ -78,6 +85,8 @@ def cmd_check(args, vx):
     units_ok = [u for u in units if (u, False) in results and (u, True) in results]
 
     tool_problems, violations, known_hits, other_failures = list(early_tool_problems), [], [], []
+    if gen_stale:
+        tool_problems.append(gen_stale)
     known = load_known(vx.VERIF)
     obligations = discharged = 0
     fn_records, samples, rewrites, items_all = [], [], [], []
